@@ -1,6 +1,7 @@
 import Nervus.Driver.Util
 import Nervus.Driver.OKey
 import Nervus.Driver.Engine
+import Nervus.Driver.Bulk
 open Nervus.Driver
 
 /-- stream registry: one line per stream (kept one-per-line so that merges are unions) -/
@@ -9,7 +10,8 @@ def streams : List (String × Stream) := [
   ("engine", EngineStream.stream),
   ("engine_reopen", EngineStream.streamReopen),
   ("engine_compact", EngineStream.streamCompact),
-  ("engine_abort", EngineStream.streamAbort)
+  ("engine_abort", EngineStream.streamAbort),
+  ("bulk", BulkStream.stream)
 ]
 
 def main (args : List String) : IO UInt32 := do
